@@ -72,7 +72,8 @@ def run_property(prop: str, tier: str, seed: int, repo: str) -> dict[str, Any]:
     import z3
     started = time.time()
     all_contracts = load_contracts()
-    mine = [c for c in all_contracts.values() if prop in c.props]
+    mine = [c for c in all_contracts.values() if prop in c.props and tier in c.__dict__.get("tiers", ("quick", "thorough"))]
+    skipped = [c.cname for c in all_contracts.values() if prop in c.props and tier not in c.__dict__.get("tiers", ("quick", "thorough"))]
     with open(os.path.join(VERIF, "known_findings.json"), encoding="utf-8") as handle:
         findings = json.load(handle)["findings"]
     open_ids = [f["id"] for f in findings if f.get("status") == "open"]
@@ -95,6 +96,7 @@ def run_property(prop: str, tier: str, seed: int, repo: str) -> dict[str, Any]:
         "known_seen": {}, "errors": [], "functions": [], "by_kind": {}, "inlined": set(), "assumptions": set(),
         "backends": {"z3": 0, "cvc5": 0, "trivial": 0}, "solver_s": 0.0, "samples": [],
         "z3_version": z3.get_version_string(), "known_class_obligations": [],
+        "contracts_only_in_other_tier": skipped,
         "vacuity": {"contracts": len(mine), "contracts_with_obligations": 0, "covers": 0, "covers_sat": 0},
     }
     for res in results:
